@@ -15,7 +15,7 @@ import itertools
 U = "U"  # the unbound state
 CLOSURE_SITE = 99  # site id of the read inside the nested function `inner`
 
-SIMPLE = ("assign", "use", "call", "calli", "pass", "break", "continue", "return", "raise")
+SIMPLE = ("assign", "assignn", "use", "call", "calli", "pass", "break", "continue", "return", "raise")
 
 
 # ----------------------------------------------------------------- rendering
@@ -30,6 +30,8 @@ def render_block(stmts, indent, out):
         t = s[0]
         if t == "assign":
             out.append(f"{pad}v = {s[1]}")
+        elif t == "assignn":
+            out.append(f"{pad}setv{s[1]}()")
         elif t == "use":
             out.append(f"{pad}site(v, {s[1]})")
         elif t == "call":
@@ -92,6 +94,10 @@ def render_function(name, stmts):
     if has_closure(stmts):
         # a nested function reading v; ("calli",) statements call it
         out += ["    def inner():", f"        site(v, {CLOSURE_SITE})"]
+    for st in walk(stmts):
+        if st[0] == "assignn":
+            # ("assignn", k): `v = k` done by a nested function through `nonlocal v`
+            out += [f"    def setv{st[1]}():", "        nonlocal v", f"        v = {st[1]}"]
     render_block(stmts, 1, out)
     return out
 
@@ -128,8 +134,8 @@ def renumber(stmts, next_def=None, next_site=None):
     out = []
     for s in stmts:
         t = s[0]
-        if t == "assign":
-            out.append(("assign", next(next_def)))
+        if t in ("assign", "assignn"):
+            out.append((t, next(next_def)))
         elif t == "use":
             out.append(("use", next(next_site)))
         elif t in ("if", "while", "for"):
@@ -201,7 +207,8 @@ class Analysis:
     def stmt(self, s, S, trace):
         t = s[0]
         r = Out()
-        if t == "assign":
+        if t in ("assign", "assignn"):
+            # a nested function assigning through `nonlocal` acts like the assignment itself at the call
             self.reached_defs.add(s[1])
             r.normal = {s[1]}
         elif t == "use":
@@ -322,7 +329,7 @@ def analyse(stmts, liberal, want_defs=False):
     if liberal and CLOSURE_SITE in a.uses:
         # a closure variable is looked up flow-insensitively: any definition of the enclosing
         # function (or none yet) may be visible when the nested function runs
-        a.uses[CLOSURE_SITE] |= {s[1] for s in walk(stmts) if s[0] == "assign"} | {U}
+        a.uses[CLOSURE_SITE] |= {s[1] for s in walk(stmts) if s[0] in ("assign", "assignn")} | {U}
     if want_defs:
         return a.uses, a.reached_defs
     return a.uses
@@ -376,7 +383,7 @@ def execute(fn, vocab, script, site_lines=None):
 
 # ----------------------------------------------------------------- compact encoding / reduction
 
-_ENC = {"assign": "v=", "use": "use", "call": "call", "calli": "inner()", "return": "ret", "raise": "raise", "break": "brk",
+_ENC = {"assign": "v=", "assignn": "nonlocal-v=", "use": "use", "call": "call", "calli": "inner()", "return": "ret", "raise": "raise", "break": "brk",
         "continue": "cont", "pass": "pass"}
 
 
@@ -433,6 +440,12 @@ def _valid(stmts, in_loop=False):
             if not _valid(s[2], in_loop):
                 return False
     return True
+
+
+def nonlocal_ok(stmts):
+    """`nonlocal v` needs a binding of v in the enclosing function."""
+    kinds = {s[0] for s in walk(stmts)}
+    return "assignn" not in kinds or "assign" in kinds
 
 
 def variants(stmts):
@@ -501,7 +514,7 @@ def reduce(stmts, still_fails, max_steps=4000):
     while progress and steps < max_steps:
         progress = False
         for v in variants(cur):
-            if not _valid(v):
+            if not _valid(v) or not nonlocal_ok(v):
                 continue
             steps += 1
             v = renumber(v)
@@ -531,6 +544,8 @@ def signature(stmts):
                 toks.add("CALL")
             elif t == "calli":
                 toks.add("CLOSURE")
+            elif t == "assignn":
+                toks.add("NONLOCAL")
             elif t == "if":
                 toks.add("IF")
                 go(s[1])
